@@ -374,6 +374,13 @@ func freezeCheck(s *Scn) {
 		return
 	}
 	fp := s.footprint()
+	// materialise the pause flag of every named token: a call that never consulted it has not
+	// generated the cell, and "never looked" must not read as "not paused"
+	for _, sl := range fp {
+		if sl.tok != nil {
+			_, _ = s.W.Sys.RetrieveValue(tokenKey(sl.tok))
+		}
+	}
 	for _, wr := range s.W.Log {
 		if wr.Kind != "kv" || world.KeyClass(wr.Key) != "token" || wr.Acct.IsSystem {
 			continue
